@@ -215,19 +215,23 @@ class ClassInfo:
 
 
 class Module:
-    def __init__(self, name: str, relpath: str, src: str, alpha: bool = True):
+    def __init__(self, name: str, relpath: str, src: str, alpha: bool = True, tree: ast.Module | None = None, notes: list[str] | None = None):
         self.name = name
         self.relpath = relpath
         self.src = src
-        try:
-            self.tree = ast.parse(src, filename=relpath)
-        except SyntaxError as exc:
-            raise AnalysisError(f"unparsable unit {relpath}: {exc}") from exc
         self.alpha_notes: list[str] = []
-        if alpha:
-            from . import alpha as _alpha
+        if tree is not None:
+            self.tree = tree                 # parsed and normalised by the caller (whole-program normalisation)
+            self.alpha_notes = notes or []
+        else:
+            try:
+                self.tree = ast.parse(src, filename=relpath)
+            except SyntaxError as exc:
+                raise AnalysisError(f"unparsable unit {relpath}: {exc}") from exc
+            if alpha:
+                from . import alpha as _alpha
 
-            self.alpha_notes = _alpha.normalise_module(relpath, self.tree)
+                self.alpha_notes = _alpha.normalise_module(relpath, self.tree)
         set_parents(self.tree)
         self.imports: dict[str, tuple[str, str | None]] = {}
         self.classes: dict[str, ClassInfo] = {}
@@ -300,11 +304,32 @@ class Program:
         for rel in REQUIRED_UNITS:
             if not os.path.isfile(os.path.join(self.root, rel)):
                 raise AnalysisError(f"required unit missing: {rel}")
+        rels = []
         for dirpath, dirnames, filenames in os.walk(os.path.join(self.root, "httpcore")):
             dirnames[:] = sorted(d for d in dirnames if d != "__pycache__")
             for fn in sorted(filenames):
                 if fn.endswith(".py"):
-                    self._load(os.path.relpath(os.path.join(dirpath, fn), self.root))
+                    rels.append(os.path.relpath(os.path.join(dirpath, fn), self.root))
+        if self.alpha:
+            from . import alpha as _alpha
+
+            srcs, trees = {}, {}
+            for rel in rels:
+                with open(os.path.join(self.root, rel), encoding="utf-8") as f:
+                    srcs[rel] = f.read()
+                try:
+                    trees[rel] = ast.parse(srcs[rel], filename=rel)
+                except SyntaxError as exc:
+                    raise AnalysisError(f"unparsable unit {rel}: {exc}") from exc
+            notes = _alpha.normalise_program(trees)
+            for rel in rels:
+                name = rel[:-3].replace(os.sep, ".")
+                if name.endswith(".__init__"):
+                    name = name[: -len(".__init__")]
+                self.modules[name] = Module(name, rel, srcs[rel], alpha=True, tree=trees[rel], notes=notes.get(rel, []))
+        else:
+            for rel in rels:
+                self._load(rel)
         for rel in ("scripts/unasync.py",):
             with open(os.path.join(self.root, rel), encoding="utf-8") as f:
                 self.texts[rel] = f.read()
